@@ -322,6 +322,10 @@ def hyp_cases(draw, tier):
     return case
 
 
+# (what round 8 added to the case domain; part of the evidence text)
+RULE_ROUND8 = ' One case in four copies a BIG source (gen.big_specs) with add(tree, before=True|int|node), the shortcut methods, Tree.copy_to, Tree.copy, Node.copy_to. Part python-O: the copies part with PYTHONOPTIMIZE=1.'
+RULE = RULE + RULE_ROUND8
+
 PARTS = [
     Part("copies", run, strategy=hyp_cases, n={"quick": 1200, "thorough": 200000}),
     optimized_part("C07", ['copies']),
